@@ -50,7 +50,8 @@ PROPS = {
     "C05": dict(
         level="proof",
         functions=[f"Dispatcher.{k}" for k in ("raw_ready_operations", "available_operations", "current_time",
-                                                "unscheduled_operations", "scheduled_operations", "ongoing_operations")]
+                                                "unscheduled_operations", "scheduled_operations", "ongoing_operations",
+                                                "uncompleted_operations")]
         + [f"Dispatcher.{k}$raw" for k in ("raw_ready_operations", "available_operations", "current_time",
                                             "unscheduled_operations", "scheduled_operations", "uncompleted_operations",
                                             "ongoing_operations")]
@@ -241,7 +242,9 @@ PROPS = {
                    "Schedule.is_complete",
                    # the rules rely on the cache invariant, which every cached query body has to keep (a rule may be
                    # asked after any other query in the same state)
-                   "Dispatcher.uncompleted_operations$raw", "Dispatcher.ongoing_operations", "Dispatcher.ongoing_operations$raw",
+                   "most_operations_remaining_rule", "most_operations_remaining_score",
+                   "Dispatcher.uncompleted_operations", "Dispatcher.uncompleted_operations$raw",
+                   "Dispatcher.ongoing_operations", "Dispatcher.ongoing_operations$raw",
                    "Dispatcher.scheduled_operations", "Dispatcher.scheduled_operations$raw",
                    "Dispatcher.current_time", "Dispatcher.current_time$raw",
                    "Dispatcher.raw_ready_operations", "Dispatcher.raw_ready_operations$raw"],
@@ -253,7 +256,9 @@ PROPS = {
                  "contracts (rule: returns a ready operation of the instance and keeps the cache invariant; chooser: "
                  "returns one of the operation's machines; score: one integer per job); the built-in rules and two "
                  "built-in scoring functions are verified AGAINST these contracts, the machine choosers, "
-                 "most_operations_remaining_rule, random rules and the observer-based scorer are not (bounded run)",
+                 "random rules and the observer-based scorer are not (bounded run)",
+                 "CountOfJob(job-id field, list content, i, j): spec function `how many of the first i entries belong to job "
+                 "j`, defined by recursion on i (conservative definition, assumed where it is used)",
                  "MemberIdx(content, length, o): Skolem index for `o occurs in the list` (conservative definition, "
                  "instantiated for the elements of the cached available list only)",
                  "ghost lemma contracts/ghost_src.py::lemma_unfinished_job (sidecar Python, verified like repository "
@@ -276,8 +281,12 @@ PROPS = {
                      "SPT/FCFS scoring functions "
                      "give each available operation's job the documented score; BaseSolver.__call__ stores a "
                      "non-negative elapsed_time and the class name of the solver",
-                     "bounded only: that the MOR selection (counts uncompleted_operations per job) is maximal, "
-                     "equality of the direct and the observer-based MWKR rule (numpy), "
+                     "proved: most_operations_remaining_rule returns an available operation whose job has the MOST entries in "
+                     "uncompleted_operations() (spec function CountOfJob, defined by recursion over the list; the list itself is "
+                     "proved to be unscheduled followed by ongoing, and ongoing to be exactly the scheduled operations ending "
+                     "after the current time); most_operations_remaining_score gives every job that count and is a scoring "
+                     "function in the sense of the abstract contract",
+                     "bounded only: equality of the direct and the observer-based MWKR rule (numpy), "
                      "the factories and the 5 x 2 x filter configuration matrix, machine choosers"],
     ),
     "C11": dict(
